@@ -34,6 +34,7 @@ struct GenOpts {
   bool big_L = true;
   int even_n1_bias = 0;  // 1: prefer even N1 (C15)
   int nrecv_focus = 0;   // 0 broad, 1 around k (ML region)
+  bool heavy = true;     // allow the rare scenarios with ~10^4 steps (deep unroll, noisy neighbour); off under libFuzzer
 };
 
 inline void seeded_shuffle(std::vector<uint32_t>& v, uint64_t seed) {
@@ -45,7 +46,14 @@ inline uint32_t gen_L(Chooser& ch, const GenOpts& o) {
   uint32_t c = ch.next() % 16;
   if (c < 12) return ch.range(1, 70);
   if (c < 14 || !o.big_L) return ch.pick<uint32_t>({1, 2, 7, 8, 9, 15, 16, 17, 31, 32, 33, 63, 64, 65});
-  return ch.pick<uint32_t>({255, 256, 257, 1024, 1500});
+  uint32_t w = ch.next() % 4;
+  if (w == 0) return ch.pick<uint32_t>({255, 256, 257, 1024, 1500, 1500, 4096, 65535});
+  if (w == 1) return ch.pick<uint32_t>({1472, 1500, 8972, 9000, 65507, 65535, 65536, 576, 1280});   // sizes protocols suggest
+  // ladder: m * 2^j, and its neighbours (internal tiles, strides and unroll widths are usually of this form)
+  uint32_t m = ch.pick<uint32_t>({1, 3, 5, 7, 9}), j = ch.range(4, 14);
+  uint64_t v = (uint64_t)m << j;
+  if (v > 65536) v = 65536;
+  return (uint32_t)v + ch.pick<uint32_t>({0, 0, 1}) - (ch.next() % 4 == 0 ? 1 : 0);
 }
 
 inline Config gen_config(Chooser& ch, const GenOpts& o) {
@@ -98,6 +106,7 @@ inline Config gen_config(Chooser& ch, const GenOpts& o) {
   c.payload = pc < 5 ? PAY_RANDOM : pc < 7 ? PAY_IDENTITY : (ch.coin(1, 2) ? PAY_ONES : PAY_ZERO);
   c.pseed = ch.next();
   c.L = gen_L(ch, o);
+  if ((uint64_t)c.L * (c.k + c.r) > (4u << 20)) c.L = 1 + c.L % 70;   // 64 KiB symbols only on small blocks
   return c;
 }
 
@@ -110,6 +119,7 @@ inline void add_callbacks(Chooser& ch, const GenOpts& o, Script& s, bool& cb_aft
   cb_after = false;
   if (m) {
     uint32_t flag = 1 | (ch.coin(1, 4) ? 2 : 0);
+    if (o.cb_mode != 1 && ch.next() % 12 == 11) flag = 2;   // only the repair callback registered
     cb_after = ch.coin(1, 2);
     if (!cb_after) { Step st; st.op = OP_SETCB; st.flag = flag; s.steps.push_back(st); }
     Step sp; sp.op = OP_SETPARAMS; s.steps.push_back(sp);
@@ -168,13 +178,14 @@ inline std::vector<uint32_t> gen_received(Chooser& ch, const GenOpts& o, const C
   return rec;
 }
 
-inline Script gen_decoder_script(Chooser& ch, const GenOpts& o) {
+inline Script gen_decoder_script_cfg(Chooser& ch, const GenOpts& o, const Config& cfg) {
   Script s;
-  s.cfg = gen_config(ch, o);
+  s.cfg = cfg;
   s.role = ch.coin(1, 6) ? ROLE_BOTH : ROLE_DEC;
   s.align = ch.next();
   bool cb_after;
   add_callbacks(ch, o, s, cb_after);
+  if (ch.next() % 10 == 9) push_query(s, 4);   // ask for the advertised limits
   std::vector<uint32_t> rec = gen_received(ch, o, s.cfg);
   bool use_avail = o.api_mode == 2 || (o.api_mode == 0 && ch.coin(1, 3));
   bool fin = o.finish_mode == 1 || (o.finish_mode == 0 && ch.coin(1, 2));
@@ -198,6 +209,18 @@ inline Script gen_decoder_script(Chooser& ch, const GenOpts& o) {
     }
   }
   if (fin) { Step f; f.op = OP_FINISH; s.steps.push_back(f); if (qrate) push_query(s); }
+  // combined role on a Reed-Solomon session: the same session also encodes (a few repair symbols, at generated
+  // positions among the decoding steps)
+  if (s.role == ROLE_BOTH && s.cfg.codec != CODEC_LDPC && ch.coin(1, 2)) {
+    uint32_t nb = ch.range(1, std::min<uint32_t>(s.cfg.r, 4));
+    uint64_t bs = ch.seed64();
+    for (uint32_t i = 0; i < nb; i++) {
+      Step b; b.op = OP_BUILD; b.esi = s.cfg.k + (uint32_t)(splitmix(bs) % s.cfg.r); b.flag = (uint32_t)(splitmix(bs) & 1);
+      size_t first = 0; while (first < s.steps.size() && s.steps[first].op != OP_SETPARAMS) first++;
+      size_t pos = first + 1 + (size_t)(splitmix(bs) % (s.steps.size() - first));
+      s.steps.insert(s.steps.begin() + (long)std::min(pos, s.steps.size()), b);
+    }
+  }
   if (o.early_release && ch.coin(1, 5)) {
     size_t cut = ch.range(0, (uint32_t)s.steps.size());
     s.steps.resize(cut);
@@ -205,12 +228,15 @@ inline Script gen_decoder_script(Chooser& ch, const GenOpts& o) {
   return s;
 }
 
-inline Script gen_encoder_script(Chooser& ch, const GenOpts& o) {
+inline Script gen_decoder_script(Chooser& ch, const GenOpts& o) { Config c = gen_config(ch, o); return gen_decoder_script_cfg(ch, o, c); }
+
+inline Script gen_encoder_script_cfg(Chooser& ch, const GenOpts& o, const Config& cfg) {
   Script s;
-  s.cfg = gen_config(ch, o);
+  s.cfg = cfg;
   s.role = ch.coin(1, 6) ? ROLE_BOTH : ROLE_ENC;
   s.align = ch.next();
   Step sp; sp.op = OP_SETPARAMS; s.steps.push_back(sp);
+  if (ch.next() % 10 == 9) push_query(s, 4);
   uint32_t k = s.cfg.k, n = s.cfg.k + s.cfg.r;
   std::vector<uint32_t> order(s.cfg.r);
   std::iota(order.begin(), order.end(), k);
@@ -237,6 +263,8 @@ inline Script gen_encoder_script(Chooser& ch, const GenOpts& o) {
   return s;
 }
 
+inline Script gen_encoder_script(Chooser& ch, const GenOpts& o) { Config c = gen_config(ch, o); return gen_encoder_script_cfg(ch, o, c); }
+
 inline History gen_single_decoder(Chooser& ch, const GenOpts& o) { History h; h.scripts.push_back(gen_decoder_script(ch, o)); return h; }
 inline History gen_single_encoder(Chooser& ch, const GenOpts& o) { History h; h.scripts.push_back(gen_encoder_script(ch, o)); return h; }
 
@@ -249,21 +277,34 @@ inline History gen_multi(Chooser& ch, const GenOpts& o) {
     bool enc = ch.coin(1, 3);
     Script s = enc ? gen_encoder_script(ch, oo) : gen_decoder_script(ch, oo);
     if (i > 0 && ch.coin(1, 3)) {
-      // a sibling of the previous script: same shape, differing in one parameter only
+      // a sibling of the previous script: related parameters (caches and shared scratch state are keyed on some of them)
       Script t = h.scripts[i - 1];
-      uint32_t what = ch.next() % 4;
-      if (t.cfg.codec == CODEC_LDPC && what == 0) t.cfg.seed = t.cfg.seed % 0x7FFFFFFEu + 1;
-      else if (what == 1) t.cfg.pseed ^= 0x5555;
-      else if (t.cfg.codec == CODEC_RSM && t.cfg.m == 8 && t.cfg.k + t.cfg.r <= 15 && what == 2) t.cfg.m = 4;
-      else if (t.cfg.codec == CODEC_RS8 && what == 2) { t.cfg.codec = CODEC_RSM; t.cfg.m = 8; }
-      s = t;
+      Config c2 = t.cfg;
+      bool was_enc = false; for (auto& st : t.steps) if (st.op == OP_BUILD) was_enc = true;
+      uint32_t what = ch.next() % 8;
+      bool rsx = (c2.codec == CODEC_RS8 || c2.codec == CODEC_RSM);
+      uint32_t lim = c2.codec == CODEC_RS8 ? 255 : (c2.codec == CODEC_RSM && c2.m == 4) ? 15 : (c2.codec == CODEC_RSM ? 255 : 50000);
+      bool regen = false;
+      if (c2.codec == CODEC_LDPC && what == 0) { c2.seed = c2.seed % 0x7FFFFFFEu + 1; regen = true; }
+      else if (what == 1) { c2.pseed ^= 0x5555; }
+      else if (c2.codec == CODEC_RSM && c2.m == 8 && c2.k + c2.r <= 15 && what == 2) { c2.m = 4; }
+      else if (c2.codec == CODEC_RS8 && what == 2) { c2.codec = CODEC_RSM; c2.m = 8; }
+      else if (what == 3 && c2.k + c2.r < lim) { c2.r += 1 + ch.next() % std::min<uint32_t>(8, lim - c2.k - c2.r); regen = true; }          // same k, longer code
+      else if (what == 4 && c2.r > (c2.codec == CODEC_LDPC ? c2.N1 : 1)) { c2.r -= 1; regen = true; }                                    // same k, shorter code
+      else if (what == 5 && rsx && c2.payload != PAY_IDENTITY) {                                                                            // same k*L, another k
+        uint32_t prod = c2.k * c2.L;
+        for (uint32_t k2 = 1; k2 + c2.r <= lim && k2 <= prod; k2++) if (k2 != c2.k && prod % k2 == 0 && prod / k2 <= 4096 && (k2 * 7 + ch.next()) % 3 == 0) { c2.k = k2; c2.L = prod / k2; regen = true; break; }
+      }
+      else if (what == 6 && c2.payload != PAY_IDENTITY) { c2.L = c2.L + 1; }                                                                // same shape, another symbol length
+      if (regen) { Script t2 = was_enc ? gen_encoder_script_cfg(ch, oo, c2) : gen_decoder_script_cfg(ch, oo, c2); s = t2; }
+      else { t.cfg = c2; s = t; }
     }
     if (ch.next() % 8 == 7) s.verb = 2;   // verbosity is process-wide in the library: a chatty neighbour
     h.scripts.push_back(s);
   }
   // now and then a long-lived noisy neighbour: thousands of duplicate submissions on one session before
   // (and while) the others run (process-wide counters, caches and free lists get exercised)
-  if ((o.codecs & GC_LDPC) && ch.next() % 32 == 31) {
+  if (o.heavy && (o.codecs & GC_LDPC) && ch.next() % 32 == 31) {
     Script a; a.cfg.codec = CODEC_LDPC; a.cfg.k = ch.range(2, 12); a.cfg.N1 = 3; a.cfg.r = ch.range(3, 12); a.cfg.seed = 1 + ch.next() % 1000; a.cfg.L = 4; a.cfg.payload = PAY_RANDOM; a.role = ROLE_DEC;
     Step sp; sp.op = OP_SETPARAMS; a.steps.push_back(sp);
     uint32_t dups = ch.pick<uint32_t>({1500, 5000, 9000});
@@ -274,6 +315,7 @@ inline History gen_multi(Chooser& ch, const GenOpts& o) {
     for (size_t i = 0; i < a.steps.size() + 1; i++) h.inter.push_back(0);   // neighbour first (not released yet)
     return h;
   }
+  if (ch.next() % 4 == 3) h.reenter = ch.range(1, 6);   // nested calls: another session acts from inside a callback
   size_t total = 0;
   for (auto& s : h.scripts) total += s.steps.size() + 2;
   uint32_t mode = ch.next() % 4;
